@@ -455,6 +455,93 @@ func finishRace(id string, seed uint64) runner.Result {
 	return res
 }
 
+// faultWithBlockedOps: a send of the client is stuck inside the transport, a terminal call of another
+// goroutine (Close / CloseSend) is queued behind it, and then the transport fails on the read side
+// (peer reset, peer close) or the connection is closed locally: everything must come back.
+func faultWithBlockedOps(id string, seed uint64) runner.Result {
+	base := census.IDs(census.Snapshot())
+	r := &payload.SplitMix{S: seed}
+	cfg := prog.GenConfig(r, false)
+	cfg.Net.Cap = -1
+	handler := rig.HandlerFunc(func(stream drpc.Stream, rpc string) error {
+		var m []byte
+		for stream.MsgRecv(&m, payload.Enc{}) == nil {
+		}
+		return nil
+	})
+	rg := rig.New(rig.Config{Net: cfg.Net, Client: cfg.Client, Server: cfg.Server}, handler)
+	st, err := rg.Conn.NewStream(context.Background(), "/x", payload.Enc{})
+	if err != nil {
+		rg.Teardown()
+		return runner.Inconcl(id, "NewStream failed")
+	}
+	first := payload.Make(1, 0, 0, 0, 10)
+	st.MsgSend(&first, payload.Enc{})
+	census.Quiesce(rig.Watchdog)
+	rg.Pair.A.StallWrites(true)
+	a := rig.Go("send", func() (interface{}, error) {
+		m := payload.Make(1, 0, 0, 1, 5000)
+		return nil, st.MsgSend(&m, payload.Enc{})
+	})
+	census.Quiesce(rig.Watchdog)
+	term := payload.Pick(r, []string{"Close", "CloseSend", "none"})
+	var b *rig.Op
+	switch term {
+	case "Close":
+		b = rig.Go("close", func() (interface{}, error) { return nil, st.Close() })
+	case "CloseSend":
+		b = rig.Go("closesend", func() (interface{}, error) { return nil, st.CloseSend() })
+	}
+	census.Quiesce(rig.Watchdog)
+	how := payload.Pick(r, []string{"server-side reset", "server-side close", "Conn.Close"})
+	var cl *rig.Op
+	switch how {
+	case "server-side reset":
+		rg.Pair.B.Reset()
+	case "server-side close":
+		rg.Pair.B.Close()
+	default:
+		cl = rig.Go("conn.Close", func() (interface{}, error) { return nil, rg.Conn.Close() })
+	}
+	_, snap := census.Quiesce(rig.Watchdog)
+	desc := fmt.Sprintf("%s | a send stuck in the transport (write stalled), %s queued behind it, then %s", cfg.Desc, term, how)
+	var fails []string
+	if !a.Returned() {
+		fails = append(fails, "the send stuck in the transport is still blocked at quiescence after the transport failed")
+	} else if a.Err == nil {
+		fails = append(fails, "the send stuck in the transport returned nil although the transport failed under it")
+	}
+	if b != nil && !b.Returned() {
+		fails = append(fails, term+" (queued behind the stuck send) is still blocked at quiescence after the transport failed")
+	}
+	if cl != nil && !cl.Returned() {
+		fails = append(fails, "Conn.Close has not returned")
+	}
+	if len(fails) > 0 {
+		fails = append(fails, census.Dump(census.InDRPC(snap)))
+	} else if !rig.IsClosed(rg.Conn.Closed()) {
+		fails = append(fails, "after the fault the client connection does not report closed")
+	}
+	rg.StopServe()
+	cl2 := rig.Go("conn.Close#2", func() (interface{}, error) { return nil, rg.Conn.Close() })
+	if len(fails) == 0 && !cl2.Wait() {
+		fails = append(fails, "Conn.Close after the fault has not returned")
+	}
+	rg.Pair.A.Close()
+	rg.Pair.B.Close()
+	_, snap = census.Quiesce(rig.Watchdog)
+	if left := census.NewSince(census.InDRPC(snap), base); len(left) > 0 && len(fails) == 0 {
+		fails = append(fails, "library goroutines left behind:\n"+census.Dump(left))
+	}
+	rg.Teardown()
+	if len(fails) > 0 {
+		return runner.Violation(id, "fault:blocked-ops:"+keyOf(fails[0]), desc+"\n"+strings.Join(fails, "\n"))
+	}
+	res := runner.Hold(id, desc, true)
+	res.Events = 3
+	return res
+}
+
 // closeDuringDecode: a receiver is inside the decode of a delivered message (the buffer is lent out),
 // the next message is already waiting behind it, and the connection is closed locally at that moment.
 func closeDuringDecode(id string, seed uint64) runner.Result {
@@ -545,6 +632,8 @@ func gen(tier string, seed uint64) []runner.Scenario {
 	nrace := 60
 	for i := 0; i < 40; i++ {
 		i := i
+		idb := fmt.Sprintf("fault-with-blocked-ops/%d", i)
+		out = append(out, runner.Scenario{ID: idb, Run: func() runner.Result { return faultWithBlockedOps(idb, payload.Hash(seed, 0xC05D, uint64(i))) }})
 		id := fmt.Sprintf("close-during-decode/%d", i)
 		out = append(out, runner.Scenario{ID: id, Run: func() runner.Result { return closeDuringDecode(id, payload.Hash(seed, 0xC05C, uint64(i))) }})
 	}
@@ -627,7 +716,7 @@ func main() {
 	runner.Main(runner.Check{
 		Property: "C05",
 		Level:    "fault_enumeration",
-		Rule:     "fault points: for each of 16 deterministic workloads (unary small / multi-frame / with metadata / failing handler, client-, server-, bidirectional streams, failing bidi, two RPCs on one connection, early client close, flush-per-frame and 6 KB unary over a rendezvous transport) a fault-free run yields the byte streams and frame edges; one case = (workload, faulted endpoint, fault kind in {write error, partial write, read error, data+error, peer EOF, peer reset, local close (all fail-stop), write error only, partial write only (that one write fails, the transport stays usable)}, byte offset, read chunking). quick: every frame edge, edge-1, edge+1, offset 0 and 8 seeded interior offsets per direction with one seeded chunking; thorough: every byte offset x all three chunkings. Plus raw-server cases: a raw peer writes a seeded prefix (whole, frame edge, any byte) of a valid client session that may contain RPCs abandoned before their invoke (metadata and/or cancel only), then the transport ends (read error, EOF, reset, peer close); ServeOne must return without anybody telling it. Plus finish-race cases: the contexts of the first RPCs are cancelled exactly while their streams are being marked finished (parked at the hook), then a last RPC has receives pending on both sides when the transport is reset or closed. Plus close-during-decode cases: the connection is closed locally while a receiver is inside the decode of a message and the next message waits behind it. Non-trivial: the fault actually fired. Distinct: by case tuple.",
+		Rule:     "fault points: for each of 16 deterministic workloads (unary small / multi-frame / with metadata / failing handler, client-, server-, bidirectional streams, failing bidi, two RPCs on one connection, early client close, flush-per-frame and 6 KB unary over a rendezvous transport) a fault-free run yields the byte streams and frame edges; one case = (workload, faulted endpoint, fault kind in {write error, partial write, read error, data+error, peer EOF, peer reset, local close (all fail-stop), write error only, partial write only (that one write fails, the transport stays usable)}, byte offset, read chunking). quick: every frame edge, edge-1, edge+1, offset 0 and 8 seeded interior offsets per direction with one seeded chunking; thorough: every byte offset x all three chunkings. Plus raw-server cases: a raw peer writes a seeded prefix (whole, frame edge, any byte) of a valid client session that may contain RPCs abandoned before their invoke (metadata and/or cancel only), then the transport ends (read error, EOF, reset, peer close); ServeOne must return without anybody telling it. Plus finish-race cases: the contexts of the first RPCs are cancelled exactly while their streams are being marked finished (parked at the hook), then a last RPC has receives pending on both sides when the transport is reset or closed. Plus fault-with-blocked-ops cases (a send stuck in the transport, Close/CloseSend of another goroutine queued behind it, then peer reset / peer close / Conn.Close). Plus close-during-decode cases: the connection is closed locally while a receiver is inside the decode of a message and the next message waits behind it. Non-trivial: the fault actually fired. Distinct: by case tuple.",
 		Assumptions: []string{
 			"fault model is fail-stop: after the fault the endpoint's reads and writes both fail and the peer sees EOF or a reset after the surviving bytes; a transport whose writes fail while its reads stay healthy forever is not modelled (by design write errors are returned to the caller and the read error terminates the manager)",
 			"'every later call fails' is checked by issuing a send and a receive on each old stream, an Invoke and a NewStream after the process came to rest",
